@@ -59,6 +59,8 @@ ROLES = {
                           _has(f, 'n_batches for') and f.name != 'set_objective'),
     '_set_threshold': (SMC, 'method', lambda f: _has(f, "objective['thresholds'][") and
                        f.name not in ('set_objective',) and not f.is_property),
+    '_compute_weights_means_and_cov': (SMC, 'method', lambda f: _has(f, 'weighted_var(') and
+                                       _has(f, 'GMDistribution.logpdf(')),
     '_gm_params': (SMC, 'method', lambda f: f.is_property and _has(f, '_populations[-1]')),
     '_to_slice': ('elfi.store:ArrayStore', 'method',
                   lambda f: any(isinstance(r.value, ast.Call) and
